@@ -1,4 +1,234 @@
-(** C03 -- readable printing round-trips through the reader (under construction). *)
-From Verif Require Import C03.Corr.
-Example C03_placeholder : True. Proof. exact I. Qed.
-Print Assumptions C03_placeholder.
+(** C03 -- Readable printing round-trips through the reader.
+
+    Model: C03/Printer.v (obj.lrepr and the _lrepr methods, as repaired by
+    fixes/C03-str-printer-literal.patch), C03/ReadBack.v (basilisp.lang.reader restricted to the
+    printer's output, as repaired by fixes/C03-sci-notation-float.patch), C03/Guard.v (the
+    executable guards).  CPython enters through the Section variables below (TRUSTED). *)
+From Coq Require Import List NArith ZArith Bool.
+Import ListNotations.
+From Verif Require Import Common.ListX Gen.Tables C19.Bencode C19.Edn.
+From Verif Require Import C03.Printer C03.ReadBack C03.Guard C03.Spec C03.Corr.
+From Verif Require Import C03.ProofsBase C03.ProofsLeaf C03.ProofsColl C03.ProofsMain C03.ProofsTop.
+Local Open Scope N_scope.
+
+Section CPython.
+  (** repr(float(t)), str(Decimal(t)), the printed form of complex(0, float(t) or int(t)),
+      str(UUID(t)), isoformat(fromisoformat(t)) -- None when the constructor raises -- and whether
+      re.compile accepts a pattern *)
+  Variable py_float py_dec py_imag py_uuid py_inst : str -> option str.
+  Variable re_ok : str -> bool.
+  (** "t is what repr prints for some finite float", ... *)
+  Variable is_repr is_dec is_imag is_uuid is_inst : str -> bool.
+  Hypothesis H_float_repr_inverse : forall t, is_repr t = true -> py_float t = Some t.
+  Hypothesis H_repr_grammar : forall t, is_repr t = true -> repr_grammar t = true.
+  Hypothesis H_dec_str_inverse : forall t, is_dec t = true -> py_dec t = Some t.
+  Hypothesis H_dec_grammar : forall t, is_dec t = true -> dec_grammar t = true.
+  Hypothesis H_imag_inverse : forall t, is_imag t = true -> imag_plain t = true -> py_imag t = Some t.
+  Hypothesis H_uuid_inverse : forall t, is_uuid t = true -> py_uuid t = Some t.
+  Hypothesis H_inst_inverse : forall t, is_inst t = true -> py_inst t = Some t.
+
+  Notation read_text := (read_text py_float py_dec py_imag py_uuid py_inst re_ok).
+  Notation guard := (guard is_repr is_dec is_imag is_uuid is_inst re_ok).
+
+  (** Every value of the readable universe that satisfies the executable guard -- nil, booleans,
+      ALL integers, ratios, floats (repr tokens, ##Inf ##-Inf ##NaN), decimals under *print-dup*,
+      exponent-free imaginary numbers, ALL strings, keywords/symbols over the reader's token
+      alphabet, lists, vectors, sets, queues, maps (with and without namespace prefix), #py
+      list/tuple/set/dict, uuids, instants, plain regex patterns, byte strings without a double
+      quote, with metadata under *print-meta*, nested to any depth and width -- prints to a
+      text which the reader reads back as exactly one form, that very value. *)
+  Theorem C03_roundtrip_partial : forall pc v,
+    guard pc v = true -> read_text (print pc v) = ROk [v].
+  Proof. exact (roundtrip_guarded _ _ _ _ _ _ _ _ _ _ _ H_float_repr_inverse H_repr_grammar H_dec_str_inverse
+                  H_dec_grammar H_imag_inverse H_uuid_inverse H_inst_inverse). Qed.
+
+  Theorem C03_string_roundtrip : forall pc s,
+    p_readably pc = true -> read_text (print pc (VStr s)) = ROk [VStr s].
+  Proof. exact (string_roundtrip _ _ _ _ _ _ _ _ _ _ _ H_float_repr_inverse H_repr_grammar H_dec_str_inverse
+                  H_dec_grammar H_imag_inverse H_uuid_inverse H_inst_inverse). Qed.
+
+  Theorem C03_int_roundtrip : forall pc z, read_text (print pc (VInt z)) = ROk [VInt z].
+  Proof. exact (int_roundtrip _ _ _ _ _ _ _ _ _ _ _ H_float_repr_inverse H_repr_grammar H_dec_str_inverse
+                  H_dec_grammar H_imag_inverse H_uuid_inverse H_inst_inverse). Qed.
+
+  Theorem C03_ratio : forall pc n d, (2 <= d)%Z -> Z.gcd n d = 1%Z ->
+    read_text (print pc (VRatio n d)) = ROk [VRatio n d].
+  Proof. exact (ratio_roundtrip _ _ _ _ _ _ _ _ _ _ _ H_float_repr_inverse H_repr_grammar H_dec_str_inverse
+                  H_dec_grammar H_imag_inverse H_uuid_inverse H_inst_inverse). Qed.
+
+  Theorem C03_kw_sym_partial : forall pc ns nm,
+    (kw_ok3 ns nm = true -> read_text (print pc (VKw ns nm)) = ROk [VKw ns nm])
+    /\ (sym_ok3 ns nm = true -> read_text (print pc (VSym ns nm None)) = ROk [VSym ns nm None]).
+  Proof. exact (kw_sym_roundtrip _ _ _ _ _ _ _ _ _ _ _ H_float_repr_inverse H_repr_grammar H_dec_str_inverse
+                  H_dec_grammar H_imag_inverse H_uuid_inverse H_inst_inverse). Qed.
+
+  Theorem C03_float_roundtrip : forall pc tok, is_repr tok = true ->
+    read_text (print pc (VFloat (FTok tok))) = ROk [VFloat (FTok tok)].
+  Proof. exact (float_roundtrip _ _ _ _ _ _ _ _ _ _ _ H_float_repr_inverse H_repr_grammar H_dec_str_inverse
+                  H_dec_grammar H_imag_inverse H_uuid_inverse H_inst_inverse). Qed.
+
+  Theorem C03_special_floats : forall pc,
+    read_text (print pc (VFloat FInf)) = ROk [VFloat FInf]
+    /\ read_text (print pc (VFloat FNegInf)) = ROk [VFloat FNegInf]
+    /\ read_text (print pc (VFloat FNaN)) = ROk [VFloat FNaN].
+  Proof. exact (special_float_roundtrip _ _ _ _ _ _ _ _ _ _ _ H_float_repr_inverse H_repr_grammar H_dec_str_inverse
+                  H_dec_grammar H_imag_inverse H_uuid_inverse H_inst_inverse). Qed.
+
+  Theorem C03_meta_roundtrip_partial : forall pc v, p_meta pc = true -> guard pc v = true ->
+    read_text (print pc v) = ROk [v].
+  Proof. exact (meta_roundtrip _ _ _ _ _ _ _ _ _ _ _ H_float_repr_inverse H_repr_grammar H_dec_str_inverse
+                  H_dec_grammar H_imag_inverse H_uuid_inverse H_inst_inverse). Qed.
+
+  Theorem C03_reprint_fixpoint_partial : forall pc v, guard pc v = true ->
+    exists b, read_text (print pc v) = ROk [b] /\ print pc b = print pc v.
+  Proof. exact (reprint_fixpoint _ _ _ _ _ _ _ _ _ _ _ H_float_repr_inverse H_repr_grammar H_dec_str_inverse
+                  H_dec_grammar H_imag_inverse H_uuid_inverse H_inst_inverse). Qed.
+
+  Theorem C03_print_injective_partial : forall pc v1 v2, guard pc v1 = true -> guard pc v2 = true ->
+    print pc v1 = print pc v2 -> v1 = v2.
+  Proof. exact (print_injective _ _ _ _ _ _ _ _ _ _ _ H_float_repr_inverse H_repr_grammar H_dec_str_inverse
+                  H_dec_grammar H_imag_inverse H_uuid_inverse H_inst_inverse). Qed.
+End CPython.
+
+(** The string printer followed by the string reader is the identity on ALL strings, whatever
+    follows the closing quote. *)
+Theorem C03_string_reader_inverts_printer : forall s acc rest,
+  read_str_body false (escape s ++ 34 :: rest) acc = ROk (acc ++ s, rest).
+Proof. exact string_reader_inverts_printer. Qed.
+
+(** A list / vector / set of ANY elements that round-trip (whatever their number and whether or
+    not they are in the guarded universe) round-trips. *)
+Theorem C03_coll_roundtrip : forall py_float py_dec py_imag py_uuid py_inst re_ok k (l : list (str * value * nat)),
+  plain_kind k = true ->
+  Forall (fun e => elem_ok py_float py_dec py_imag py_uuid py_inst re_ok (fst (fst e)) (snd (fst e)) (snd e)) l ->
+  reads py_float py_dec py_imag py_uuid py_inst re_ok
+        (open_of k ++ join sp (map (fun e => fst (fst e)) l) ++ [close_of k])
+        (VSeq k (map (fun e => snd (fst e)) l) None) (2 + list_sum (map snd l)).
+Proof. exact coll_roundtrip. Qed.
+
+(** Every text of CPython's repr(float) grammar -- exponent forms included -- is handed by the
+    reader's regexes, whole, to float(). *)
+Theorem C03_float_routing : forall py_float py_dec py_imag tok rest, repr_grammar tok = true ->
+  classify py_float py_dec py_imag tok rest = tok_or_err (py_float tok) (fun t => VFloat (FTok t)) rest.
+Proof. exact float_routing_all. Qed.
+
+(** The model prescribes that two printings of one value agree. *)
+Theorem C03_print_deterministic : forall c,
+  match model c with OOk _ _ _ _ det => det = true | _ => True end.
+Proof. intros [via pc v orc badre]. unfold model. destruct (vexists long_int v); [exact I|].
+  destruct (read_text _ _ _ _ _ _ _) as [[|b r]| |]; try exact I.
+  destruct ((via =? 1) && value_eqb false b (VKw None kw_eofthrow)); exact I. Qed.
+
+(** A value using every constructor, with nested metadata, satisfies the guard under all print
+    settings on, and round-trips (with the CPython functions instantiated by the identity). *)
+Example C03_guard_nonvacuous :
+  guard yes yes yes yes yes yes pc_all sample = true
+  /\ read_text idf idf idf idf idf yes (print pc_all sample) = ROk [sample].
+Proof. exact (conj sample_guard sample_reads). Qed.
+
+(** Refutations: [violates c] = the model of the code as it is fails the property's spec on the
+    correspondence case [c] (each is a witness in known_findings.json). *)
+Theorem C03_string_unicode_escape_legacy_refuted :
+  read_str_body false (escape_legacy [31] ++ [34]) [] = RErr 1
+  /\ read_str_body false (escape_legacy [233] ++ [34]) [] = RErr 1
+  /\ read_str_body false (escape_legacy [20013; 97] ++ [34]) [] = RErr 1
+  /\ read_str_body false (escape_legacy [20013; 45] ++ [34]) [] = ROk ([20013; 45], []).
+Proof. exact legacy_escape_refuted. Qed.
+
+Theorem C03_regex_quote_refuted : violates w_regex_backslash /\ violates w_regex_quote
+  /\ model w_regex_backslash = OOk [35; 34; 92; 92; 115; 34] 1 (VRegex [92; 92; 115]) 0 true.
+Proof. exact regex_refuted. Qed.
+
+Theorem C03_int_digit_limit_refuted : violates w_int_limit /\ model w_int_limit = OPrintErr 2.
+Proof. exact int_limit_refuted. Qed.
+
+Theorem C03_int_digit_limit_spec : forall z, int_too_long z = (10 ^ 4300 <=? Z.abs_N z).
+Proof. exact int_too_long_spec. Qed.
+
+Theorem C03_bytes_quote_refuted : violates w_bytes_quote.
+Proof. exact bytes_quote_refuted. Qed.
+
+Theorem C03_imag_exponent_refuted : violates w_imag_exp /\ violates w_imag_negzero.
+Proof. exact imag_refuted. Qed.
+
+Theorem C03_kw_sym_refuted :
+  violates w_kw_space /\ violates w_sym_empty /\ violates w_sym_digit /\ violates w_sym_nil
+  /\ violates w_sym_gensym /\ violates w_kw_slash.
+Proof. exact names_refuted. Qed.
+
+Theorem C03_decimal_special_refuted : violates w_dec_nan.
+Proof. exact dec_special_refuted. Qed.
+
+Theorem C03_nsmap_key_refuted : violates w_nsmap_nil.
+Proof. exact nsmap_refuted. Qed.
+
+Theorem C03_reprint_fixpoint_meta_refuted : violates w_meta_reprint.
+Proof. exact meta_reprint_refuted. Qed.
+
+Theorem C03_read_string_eofthrow_refuted :
+  violates w_eofthrow /\ model w_eofthrow = OReadErr (58 :: kw_eofthrow) 2.
+Proof. exact eofthrow_refuted. Qed.
+
+(** Obligations over the tables regenerated from obj.py / map.py / reader.py on every run. *)
+Theorem C03_table_str_escapes : str_tables_ok = true.
+Proof. exact table_str_escapes. Qed.
+Theorem C03_table_delims : delims_ok = true.
+Proof. exact table_delims. Qed.
+Theorem C03_table_fstrings : fstrings_ok = true.
+Proof. exact table_fstrings. Qed.
+Theorem C03_table_special_floats :
+  list_eqb str_eqb pr_special_floats [t_inf; t_ninf; t_nan] = true
+  /\ str_eqb (fst pr_separators) sp = true /\ str_eqb (snd pr_separators) comma_sp = true.
+Proof. exact table_special_floats. Qed.
+Theorem C03_table_whitespace : forallb ws_agree (map N.of_nat (seq 0 (Nat.mul 124 100))) = true.
+Proof. exact table_whitespace. Qed.
+Theorem C03_table_terminators : terminators_ok = true.
+Proof. exact table_terminators. Qed.
+Theorem C03_table_reader_consts :
+  assoc_str [73; 110; 102] rd_numeric_constants = Some 1
+  /\ assoc_str [45; 73; 110; 102] rd_numeric_constants = Some 2
+  /\ assoc_str [78; 97; 78] rd_numeric_constants = Some 0
+  /\ rd_unicode_lens = [4; 8]
+  /\ forallb (fun kv => match assoc (fst kv) rd_bytes_escapes with Some r => r =? snd kv | None => false end)
+             rd_str_escapes = true.
+Proof. exact table_reader_consts. Qed.
+Theorem C03_table_print_defaults :
+  assoc_str [80; 82; 73; 78; 84; 95; 82; 69; 65; 68; 65; 66; 76; 89] pr_print_defaults = Some 1
+  /\ assoc_str [80; 82; 73; 78; 84; 95; 76; 69; 78; 71; 84; 72] pr_print_defaults = Some 0
+  /\ assoc_str [80; 82; 73; 78; 84; 95; 76; 69; 86; 69; 76] pr_print_defaults = Some 0.
+Proof. exact table_print_defaults. Qed.
+
+Print Assumptions C03_roundtrip_partial.
+Print Assumptions C03_string_roundtrip.
+Print Assumptions C03_int_roundtrip.
+Print Assumptions C03_ratio.
+Print Assumptions C03_kw_sym_partial.
+Print Assumptions C03_float_roundtrip.
+Print Assumptions C03_special_floats.
+Print Assumptions C03_meta_roundtrip_partial.
+Print Assumptions C03_reprint_fixpoint_partial.
+Print Assumptions C03_print_injective_partial.
+Print Assumptions C03_string_reader_inverts_printer.
+Print Assumptions C03_coll_roundtrip.
+Print Assumptions C03_float_routing.
+Print Assumptions C03_print_deterministic.
+Print Assumptions C03_guard_nonvacuous.
+Print Assumptions C03_string_unicode_escape_legacy_refuted.
+Print Assumptions C03_regex_quote_refuted.
+Print Assumptions C03_int_digit_limit_refuted.
+Print Assumptions C03_int_digit_limit_spec.
+Print Assumptions C03_bytes_quote_refuted.
+Print Assumptions C03_imag_exponent_refuted.
+Print Assumptions C03_kw_sym_refuted.
+Print Assumptions C03_decimal_special_refuted.
+Print Assumptions C03_nsmap_key_refuted.
+Print Assumptions C03_reprint_fixpoint_meta_refuted.
+Print Assumptions C03_read_string_eofthrow_refuted.
+Print Assumptions C03_table_str_escapes.
+Print Assumptions C03_table_delims.
+Print Assumptions C03_table_fstrings.
+Print Assumptions C03_table_special_floats.
+Print Assumptions C03_table_whitespace.
+Print Assumptions C03_table_terminators.
+Print Assumptions C03_table_reader_consts.
+Print Assumptions C03_table_print_defaults.
